@@ -83,8 +83,11 @@ pub struct RaBuf<T> {
     pub ro: bool,
     /// the next flush fails (models ENOSPC / EFBIG during write-back)
     pub fail_flush: bool,
-    /// bulk mode: multi-byte copies and zero fills use memcpy/memset instead of byte loops
-    /// (loop-free for CBMC; contents become opaque to its constant propagation)
+    /// bulk mode is a COMPILE-TIME choice (cargo feature `bulk` of this model crate): multi-byte
+    /// copies and zero fills use memcpy/memset instead of byte loops (loop-free for CBMC; contents
+    /// become opaque to its constant propagation).  As a run-time flag both variants ended up in
+    /// every formula (a codec harness went from 32 s to 305 s and 10 GB).  The field is kept so
+    /// that harnesses can state which mode they need; it is asserted against the build.
     pub bulk: bool,
 }
 
@@ -183,16 +186,16 @@ impl BufFile {
 }
 
 #[inline]
-fn put_bytes_m(bulk: bool, data: &mut [u8], p: usize, src: &[u8]) {
-    if bulk {
+fn put_bytes_m(_bulk: bool, data: &mut [u8], p: usize, src: &[u8]) {
+    if cfg!(feature = "bulk") {
         data[p..p + src.len()].copy_from_slice(src);
     } else {
         put_bytes(data, p, src);
     }
 }
 #[inline]
-fn get_bytes_m(bulk: bool, data: &[u8], p: usize, dst: &mut [u8]) {
-    if bulk {
+fn get_bytes_m(_bulk: bool, data: &[u8], p: usize, dst: &mut [u8]) {
+    if cfg!(feature = "bulk") {
         let n = dst.len();
         dst.copy_from_slice(&data[p..p + n]);
     } else {
@@ -200,8 +203,8 @@ fn get_bytes_m(bulk: bool, data: &[u8], p: usize, dst: &mut [u8]) {
     }
 }
 #[inline]
-fn zero_bytes_m(bulk: bool, data: &mut [u8], a: usize, b: usize) {
-    if bulk {
+fn zero_bytes_m(_bulk: bool, data: &mut [u8], a: usize, b: usize) {
+    if cfg!(feature = "bulk") {
         if a < b {
             data[a..b].fill(0);
         }
